@@ -34,8 +34,10 @@ Task: make a small change to the production code (non-test .go files) in /tmp/se
      helpers, hand-written fakes, etc.) that FAILS with your change and PASSES on the unchanged code. Keep the production change and the
      demonstration strictly separate: the demo file must be a new untracked file; the production change must be modifications to tracked files only.
 {hint}
-Verify all of this yourself (build; full suite with your change and the demo moved aside; demo with the change -> fails; `git stash` the production
-change -> demo passes; `git stash pop`). Leave the worktree with the production change applied (uncommitted) and the demo file present (untracked).
+Verify all of this yourself (build; full suite with your change and the demo moved aside; demo with the change -> fails; save the production
+change with `git diff > /tmp/seed-out/{tag}.diff`, remove it with `git apply -R /tmp/seed-out/{tag}.diff` -> demo passes; restore it with
+`git apply /tmp/seed-out/{tag}.diff`. Do NOT use `git stash`: the stash is shared with other worktrees of this repository that other people are
+using at the same time). Leave the worktree with the production change applied (uncommitted) and the demo file present (untracked).
 
 Finally write /tmp/seed-out/{tag}/meta.json (create the directory) with keys:
   "property": "{prop}", "summary": what you changed and why it breaks the property, "needs": what exactly is needed for it to manifest,
